@@ -121,6 +121,22 @@ PROGRAMS = {
       riscv_scf.yield %t : !riscv.reg
     }
     %out = riscv.mv %res : (!riscv.reg) -> !riscv.reg<a0>""", {"a0": (-1, 2), "c1002": (0, 1)}),
+    "nested_loops_same_carry": ("""
+    %lb = rv32.li 0 : !riscv.reg
+    %one = rv32.li 1 : !riscv.reg
+    %m = riscv.addi %p, 2 : (!riscv.reg<a1>) -> !riscv.reg
+    %init = rv32.li 1001 : !riscv.reg
+    %res = riscv_scf.for %i : !riscv.reg = %lb to %n step %one iter_args(%acc = %init) -> (!riscv.reg) {
+      %t = riscv.mul %i, %i : (!riscv.reg, !riscv.reg) -> !riscv.reg
+      %u = riscv.addi %t, 11 : (!riscv.reg) -> !riscv.reg
+      %a = riscv.add %acc, %u : (!riscv.reg, !riscv.reg) -> !riscv.reg
+      %r = riscv_scf.for %j : !riscv.reg = %lb to %m step %one iter_args(%b = %a) -> (!riscv.reg) {
+        %b2 = riscv.add %b, %j : (!riscv.reg, !riscv.reg) -> !riscv.reg
+        riscv_scf.yield %b2 : !riscv.reg
+      }
+      riscv_scf.yield %r : !riscv.reg
+    }
+    %out = riscv.mv %res : (!riscv.reg) -> !riscv.reg<a0>""", {"a0": (-1, 3), "a1": (-3, 0)}),
     "nested_loops": ("""
     %lb = rv32.li 0 : !riscv.reg
     %one = rv32.li 1 : !riscv.reg
